@@ -42,7 +42,10 @@ type caseIn struct {
 	// text handed to the real constructor vals.ParseNum
 	DStr map[string]string `json:"dstr,omitempty"`
 	DNum map[string]string `json:"dnum,omitempty"`
-	V    AVal              `json:"v"`
+	// Src "literal": Lit is Elvish code that denotes the number atom V; the case records what the
+	// real Evaler makes of it (kind of value a number literal / arithmetic result denotes)
+	Lit string `json:"lit,omitempty"`
+	V   AVal   `json:"v"`
 }
 
 type runRec struct {
@@ -183,7 +186,7 @@ type backVal struct {
 }
 
 func runCase(c *lib.Ctx, ev *evalerT, ci caseIn) (caseRec, error) {
-	rec := caseRec{ID: ci.ID, Chk: ci.Src == "random" || ci.Src == "probe" || ci.Src == "sweep", V: listing(ci.V)}
+	rec := caseRec{ID: ci.ID, Chk: ci.Src == "random" || ci.Src == "probe" || ci.Src == "sweep" || ci.Src == "literal", V: listing(ci.V)}
 	rs := repSel{seed: ci.Rep, dstr: map[string]string{}, dnum: map[string]any{}}
 	for n, h := range ci.DStr {
 		b, err := hex.DecodeString(h)
@@ -206,6 +209,9 @@ func runCase(c *lib.Ctx, ev *evalerT, ci caseIn) (caseRec, error) {
 			}
 		}
 		rs.dnum[n] = x
+	}
+	if ci.Src == "literal" {
+		return literalCase(c, ev, ci, rs, rec)
 	}
 	hs := histories(ci.V)
 	reals := make([]any, len(hs))
@@ -269,6 +275,25 @@ func runCase(c *lib.Ctx, ev *evalerT, ci caseIn) (caseRec, error) {
 		index[k] = len(rec.Runs)
 		rec.Runs = append(rec.Runs, r)
 	}
+	return rec, nil
+}
+
+// literalCase: the "text" is harness-written code for a number atom; its value is projected and
+// judged like a read-back value (RT against the natively built original, real eq).
+func literalCase(c *lib.Ctx, ev *evalerT, ci caseIn, rs repSel, rec caseRec) (caseRec, error) {
+	orig, err := build(ci.V, "asis", rs, nil)
+	if err != nil {
+		return rec, lib.Infra("case %d: %v", ci.ID, err)
+	}
+	vs, eerr, pan := fastRun(ev.ev, "put ("+ci.Lit+")", 8)
+	c.AddEvals(1)
+	if eerr != nil || pan != "" || len(vs) != 1 {
+		return rec, lib.Infra("literal %q of atom %s does not evaluate to one value: %v %s %v", ci.Lit, ci.V.A, eerr, pan, vs)
+	}
+	rec.Backs = []AVal{listing(project(vs[0], rs))}
+	txt := hex.EncodeToString([]byte(ci.Lit))
+	eq := vals.Equal(orig, vs[0])
+	rec.Runs = []runRec{{Ords: []string{"literal"}, Plain: txt, Pretty: txt, Bp: 1, Bq: 1, Eqp: eq, Eqq: eq}}
 	return rec, nil
 }
 
@@ -339,7 +364,10 @@ func judge(c *lib.Ctx, name string, cases []caseIn, recs []caseRec) error {
 				r = rec.Runs[runIdx-1]
 			}
 			key := "repr-" + reason + ":" + shape(ci.V)
-			if b := rec.Backs[r.Bp-1]; b.K == "error" && b.A == "repr-panic" {
+			if ci.Src == "literal" {
+				// the code `ci.Lit` does not denote a value of the atom's representation class / value
+				key = "repr:number-kind:" + ci.V.A
+			} else if b := rec.Backs[r.Bp-1]; b.K == "error" && b.A == "repr-panic" {
 				key = "repr:panic:" + shape(ci.V)
 			} else if b := rec.Backs[r.Bq-1]; b.K == "error" && b.A == "repr-panic" {
 				key = "repr:panic:" + shape(ci.V)
@@ -410,7 +438,7 @@ func shape(v AVal) string {
 }
 
 func run(c *lib.Ctx) error {
-	if err := initAtoms(newEvaler().ev); err != nil {
+	if err := initAtoms(); err != nil {
 		return err
 	}
 	if c.Replay != "" {
@@ -523,6 +551,9 @@ func run(c *lib.Ctx) error {
 	// map key and map value
 	sw := sweepCases()
 	cases = append(cases, sw...)
+	for _, na := range numAtoms {
+		cases = append(cases, caseIn{Src: "literal", V: atom("num", na.name), Lit: na.code})
+	}
 	c.Set("sweep_cases", len(sw))
 	c.Set("exhaustive", true)
 	c.Set("families", perFam)
